@@ -513,7 +513,7 @@ def run(ctx):
     quick = ctx.tier == "quick"
     ctx.rule = ("real fits (max_iter 1..3, integer seeds, adam/sgd, batch sizes None/2/n, 13 GEMINIs) of LinearModel, LinearMMD, LinearWasserstein, RIM, "
                 "SparseLinear{Model,MMD,MI}, KernelRIM (13 base kernels: linear, rbf, poly, polynomial, laplacian, sigmoid, cosine, chi2, additive_chi2 with and "
-                "without parameters, a callable, a callable with ignored parameters), MLP{Model,MMD,Wasserstein}, SparseMLP{Model,MMD}, Douglas (masks, 1..3 cuts), "
+                "without parameters, a callable, a callable with ignored parameters), MLP{Model,MMD,Wasserstein}, SparseMLP{Model,MMD}, Douglas (masks, 1..3 cuts; plus dedicated fits on 3..4 features whose mask skips an early feature), "
                 "Kauri (depth/leaf limits; plus unlimited trees on 10..20 samples; plus trees of 3..17 nodes grown by the real Tree._add_child with random splits, "
                 "predicted on half-integer points sitting on the thresholds; plus malformed trees that must be rejected) on 5..14 x 1..4 data (blobs / half-integer grid / duplicated rows, scales 0.3, 1, 3); arrays = training data and new "
                 "points (one equal to a training row; on the grid new points sit on thresholds); index maps = identity, permutation, reversal, sorted and "
@@ -544,6 +544,22 @@ def run(ctx):
         kw["base_kernel"], kw["base_kernel_params"] = name, params
         desc["nonneg"] = name in ("chi2", "additive_chi2")
         check_fit(ctx, rs, asker, "KernelRIM", kw, desc, n_lean=1)
+    # Douglas with masks that skip an early feature: the position of a binned feature in cut_points_list_ then differs from its column
+    for rep in range(4 if quick else 60):
+        kw, desc = rl.gen_config(rs, "Douglas")
+        desc["d"] = d = int(rs.randint(3, 5))
+        mask = np.zeros(d, dtype=bool)
+        mask[rs.choice(np.arange(1, d), size=2, replace=False)] = True
+        if rep % 2:
+            mask[0] = rs.rand() < 0.3
+            if mask.all():
+                mask[1] = False
+        kw["feature_mask"] = [bool(b) for b in mask]
+        kw["n_cuts"] = int(rs.randint(1, 3))
+        # well-separated data and a few real steps, so that the labels fit stored are decided by the masked columns
+        desc["n"], desc["data"], desc["scale"] = int(rs.randint(10, 15)), "blobs", 3.0
+        kw["max_iter"], kw["solver"], kw["learning_rate"] = int(rs.randint(2, 6)), "adam", 0.05
+        check_fit(ctx, rs, asker, "Douglas", kw, desc, n_lean=1)
     for rep in range(8 if quick else 300):      # more, and deeper, Kauri trees (cheap)
         kw, desc = rl.gen_config(rs, "Kauri")
         kw["max_depth"], kw["max_leaves"], kw["max_clusters"] = None, None, int(rs.randint(3, 6))
